@@ -105,8 +105,10 @@ impl ArrivalBound for ArrivalCurvePrefix {
 
     fn steps_iter<'a>(&'a self) -> Box<dyn Iterator<Item = Duration> + 'a> {
         let horizon = self.horizon;
+        // a prefix without steps has no steps in any later cycle either
+        let cycles = (0..).take_while(move |_| !self.steps.is_empty());
         Box::new(
-            iter::once(Duration::zero()).chain((0..).flat_map(move |cycle: u64| {
+            iter::once(Duration::zero()).chain(cycles.flat_map(move |cycle: u64| {
                 self.steps
                     .iter()
                     .map(move |(offset, _njobs)| *offset + horizon * cycle)
